@@ -284,7 +284,9 @@ func main() {
 				name = op.name
 			}
 			if err == nil && k >= 0 {
-				r.Violation("write-failure-not-reported/"+op.name, name, fmt.Sprintf("%s reported success although object write %d failed", op.name, k), nil)
+				// Not a clause of the statement (an operation may recover from a failed write); the
+			// stores this log leaves behind are judged below like any other.
+			r.Outcome("success-reported-although-a-write-failed:" + op.name)
 			}
 			hs = append(hs, history{name: name, pre: pre, log: append([]kmfx.WriteRec(nil), wf.Store.Log...)})
 		}
@@ -304,7 +306,12 @@ func main() {
 		n := names(wi.Store.Log)
 		seen[n]++
 		if !enumerated[n] {
-			r.Violation("trace-not-enumerated", "conformance run", "a real bootstrap produced a write order outside the enumerated set: "+n, map[string]any{"enumerated": enumerated})
+			// The map-order model does not explain this run: the enumeration is then incomplete (not
+			// a violation of the code). The observed log joins the histories so that its prefixes
+			// are judged as well, and the run is reported as not exhaustive.
+			r.Cap("a real bootstrap produced a write order outside the permutations of the recorded log: " + n)
+			enumerated[n] = true
+			hs = append(hs, history{name: fmt.Sprintf("bootstrap-observed-order-%d", i), pre: hs[0].pre, log: append([]kmfx.WriteRec(nil), wi.Store.Log...)})
 		}
 		r.Validated()
 	}
